@@ -1240,4 +1240,24 @@ def stream_keys(rng, quick=True):
                 # no sender key at all
                 calls.append(("jwe.decrypt_compact", tok, rk, "all", "keys/skid"))
                 calls.append(("jwt.decode/jwe", tok, rk, "all", "keys/skid"))
+    # two faults at once (a key of the wrong type / length AND a malformed header member or segment):
+    # which error comes first is part of the end-to-end correspondence
+    for base, kn in jwe_base_headers():
+        tokv = valid_jwe_compact(base, kn, payload)
+        hs, ek, iv, ct, tg = tokv.split(".")
+        hmuts = [dict(base)]
+        for m, vals in (("iv", ["!!", "", b64u(bytes(5))]), ("tag", ["!!", b64u(bytes(3))]), ("p2s", ["!!", ""]), ("p2c", [-1, 0, 2 ** 31]),
+                        ("epk", [{"kty": "EC", "crv": "P-999", "x": "AA", "y": "AA"}, {"kty": "EC"}, dict(EPK_X), dict(EPK_EC)]),
+                        ("apu", ["!!"]), ("zip", ["GZ", "DEF"]), ("crit", [["alg"], ["x"]])):
+            if m in base or m in ("zip", "crit", "apu"):
+                for v in vals:
+                    h = dict(base); h[m] = v
+                    hmuts.append(h)
+        for h in hmuts:
+            for segs in ([ek, iv, ct, tg], ["", iv, ct, tg], ["AA", iv, ct, tg], [ek, "AA", ct, tg], [b64u(bytes(24)), iv, ct, tg]):
+                t2 = ".".join([b64u(jdump(h))] + segs)
+                for k in ("oct16", "oct32", "oct64", "rsa", "ec256", "ec384", "x25519", "x448", "ed25519", "set:all"):
+                    if quick and k != kn and rng.random() < 0.55:
+                        continue
+                    calls.append(("jwe.decrypt_compact", t2, k, "all", "keys/twofaults"))
     return calls
